@@ -4,6 +4,7 @@ import (
 	"go/ast"
 	"go/token"
 	"go/types"
+	"strings"
 
 	"golang.org/x/tools/go/cfg"
 )
@@ -20,6 +21,7 @@ func runC17(c *Ctx) {
 	c.Rule("C17-R2", "delete guard: only comments matching no pending one, only when allowed", 4)
 	c.Rule("C17-R3", "platform siblings: IsEqual covers path, line, text of both sides; CanCreate is n < maxComments", 9)
 	c.Rule("C17-R4", "summary always posted; delete errors collected", 3)
+	defer c17ListFilters(c)
 
 	ud := c.MustFunc("C17-R1", "internal/reporter.updateDestination")
 	if ud == nil {
@@ -308,4 +310,110 @@ func reachWithin(fl *Flow, from Site, target Site, head *cfg.Block) bool {
 		AvoidBlock: func(b *cfg.Block) bool { return b == head },
 	})
 	return reach
+}
+
+// c17ListFilters: a platform's List() must hand back every comment pint may
+// have written in an earlier run; what it may skip is decided by what KIND of
+// comment it is (general comment, someone else's note), never by which commit
+// the comment was made on: after a new push every earlier comment has another
+// commit id, and skipping those makes each run post duplicates.
+func c17ListFilters(c *Ctx) {
+	p := c.P
+	ct := p.LookupType("internal/reporter", "Commenter")
+	if ct == nil {
+		c.Undecided("C17-R3", "anchor:Commenter", token.NoPos, "interface not found")
+		return
+	}
+	iface, _ := ct.Type().Underlying().(*types.Interface)
+	if iface == nil {
+		return
+	}
+	n := 0
+	for _, tn := range p.implementers(iface) {
+		m := p.methodOn(typeQName(tn.Type()), "List")
+		if m == nil || m.Decl.Body == nil {
+			continue
+		}
+		n++
+		info := m.Pkg.TypesInfo
+		pm := parentMap(m.Decl.Body)
+		bad := ""
+		ast.Inspect(m.Decl.Body, func(nd ast.Node) bool {
+			br, ok := nd.(*ast.BranchStmt)
+			if !ok || (br.Tok != token.CONTINUE && br.Tok != token.GOTO) {
+				return true
+			}
+			for _, a := range lexicalGuards(pm, br, m.Decl.Body) {
+				ast.Inspect(a.E, func(x ast.Node) bool {
+					switch y := x.(type) {
+					case *ast.SelectorExpr:
+						if strings.Contains(strings.ToLower(y.Sel.Name), "commit") || strings.Contains(strings.ToLower(y.Sel.Name), "sha") {
+							bad = roleStr(info, a.E)
+						}
+					}
+					return true
+				})
+			}
+			return true
+		})
+		c.Check(bad == "", "C17-R3", typeQName(tn.Type())+".List:existing comments are not filtered by commit", m.Decl.Pos(), "skips decided by comment kind only",
+			"List() skips existing comments under `"+bad+"`: comments pint made for an earlier commit of the same pull request are no longer recognised, so every run after a push posts them again")
+	}
+	c.Check(n >= 2, "C17-R3", "List implementations enumerated", ct.Pos(), itoa(n), "fewer than two Commenter.List implementations")
+
+	// GitLab: a discussion position carries the state before (old_*) and after
+	// (new_*) the merge request. pint comments on the state after it (pending
+	// comments use the report's path and line), so List takes old_* only when
+	// new_* is empty.
+	gl := p.methodOn("internal/reporter.GitLabReporter", "List")
+	if gl == nil {
+		return
+	}
+	info := gl.Pkg.TypesInfo
+	pm := parentMap(gl.Decl.Body)
+	for _, pair := range [][2]string{{"NewPath", "OldPath"}, {"NewLine", "OldLine"}} {
+		newSeen, oldOK, oldSeen := false, true, false
+		ast.Inspect(gl.Decl.Body, func(nd ast.Node) bool {
+			as, ok := nd.(*ast.AssignStmt)
+			if !ok || len(as.Lhs) != 1 || len(as.Rhs) != 1 {
+				return true
+			}
+			sel, ok := ast.Unparen(as.Rhs[0]).(*ast.SelectorExpr)
+			if !ok {
+				return true
+			}
+			switch sel.Sel.Name {
+			case pair[0]:
+				newSeen = true
+			case pair[1]:
+				oldSeen = true
+				// guarded by "new_* is empty"
+				g := false
+				for _, a := range lexicalGuards(pm, as, gl.Decl.Body) {
+					be, ok := ast.Unparen(a.E).(*ast.BinaryExpr)
+					if !ok || a.Tag != nil {
+						continue
+					}
+					if s2, ok := ast.Unparen(be.X).(*ast.SelectorExpr); ok && s2.Sel.Name == pair[0] {
+						empty := false
+						if v, isC := constString(info, be.Y); isC && v == "" {
+							empty = true
+						}
+						if k, isC := constInt(info, be.Y); isC && k == 0 {
+							empty = true
+						}
+						if empty && ((be.Op == token.NEQ || be.Op == token.GTR) && !a.Truth || (be.Op == token.EQL || be.Op == token.LEQ) && a.Truth) {
+							g = true
+						}
+					}
+				}
+				if !g {
+					oldOK = false
+				}
+			}
+			return true
+		})
+		c.Check(newSeen && oldSeen && oldOK, "C17-R3", "GitLabReporter.List:"+pair[1]+" used only when "+pair[0]+" is empty", gl.Decl.Pos(), "new_* preferred",
+			"the existing comment's position is taken from "+pair[1]+" although "+pair[0]+" may be set: for a file renamed (or lines moved) in the merge request the existing comment never equals the pending one, so every run deletes it as stale and creates it again")
+	}
 }
